@@ -196,7 +196,9 @@ def r2_fresh_helpers(ctx):
       for c in site.callees:
         if c.cls is not None and c.cls.fq in helper_cls and site.kind != 'constructor':
           recv = site.node.func.value if isinstance(site.node.func, ast.Attribute) else None
-          ok = isinstance(recv, ast.Name) and recv.id != 'self'
+          # a per-call local, or the constructor call itself (`Helper(model).method(...)`: the object dies with the expression)
+          fresh_ctor = isinstance(recv, ast.Call) and ctx.repo.resolve_expr(m.module, recv.func).kind == 'class'
+          ok = (isinstance(recv, ast.Name) and recv.id != 'self') or fresh_ctor
           ctx.check(R, ok, site.node, m, site.node,
                     f'{c.cls.name}.{c.name}() is invoked on {ast.unparse(recv) if recv is not None else "?"}, not on a per-call local')
   if used < 3:
